@@ -156,6 +156,21 @@ fn punch<'a>(t: &Term<'a>, counter: &mut usize, plan: &[Punch<'a>], skipped: &mu
     Term { source_range: None, variant }
 }
 
+/// The subterm with pre-order index `target` (the order of `sites` and `punch`).
+fn subterm_at<'t, 'a>(t: &'t Term<'a>, target: usize, counter: &mut usize) -> Option<&'t Term<'a>> {
+    let index = *counter;
+    *counter += 1;
+    if index == target {
+        return Some(t);
+    }
+    for (c, _) in children(t) {
+        if let Some(x) = subterm_at(c, target, counter) {
+            return Some(x);
+        }
+    }
+    None
+}
+
 fn cells_in<'a>(t: &Term<'a>, out: &mut Vec<Cell<'a>>) {
     if let Variant::Unifier(c, _) = &t.variant {
         out.push(c.clone());
@@ -290,7 +305,37 @@ fn pattern_case(ctx: &Ctx, ch: &mut Ch) -> Outcome {
         let mut skipped = 0;
         let pattern = punch(&t, &mut c2, &plan, &mut skipped);
         // The other side.
+        // "Veiled": one or two subterms of the instance are read through holes that are solved
+        // already (content = the subterm lowered by the hole's shift). A solved hole is transparent,
+        // so nothing changes for the property; the code paths for solved holes under binders do.
+        let veiled: Option<Term> = if side <= 2 && next(3) == 0 {
+            let mut vplan: Vec<Punch> = vec![];
+            for _ in 0..1 + next(2) {
+                let cands: Vec<&Site> = all.iter().filter(|x| x.index > 0 && x.depth >= 1).collect();
+                if cands.is_empty() {
+                    break;
+                }
+                let st = cands[next(cands.len())];
+                if vplan.iter().any(|p| {
+                    let ps = all.iter().find(|x| x.index == p.index).unwrap();
+                    (st.index >= ps.index && st.index < ps.index + ps.size) || (ps.index >= st.index && ps.index < st.index + st.size)
+                }) {
+                    continue;
+                }
+                let lowerable = st.min_free.map_or(st.depth, |m| m.min(st.depth));
+                // mostly the largest shift the subterm admits: its variables then sit just inside
+                // the scope the content lives in
+                let shift = if next(3) == 0 { next(lowerable + 1) } else { lowerable };
+                let Some(sub) = subterm_at(&t, st.index, &mut 0) else { continue };
+                let Some(content) = crate::de_bruijn::signed_shift(sub, 0, -(shift as isize)) else { continue };
+                vplan.push(Punch { index: st.index, cell: Rc::new(RefCell::new(Some(content))), shift, depth: st.depth });
+            }
+            if vplan.is_empty() { None } else { Some(punch(&t, &mut 0, &vplan, &mut 0)) }
+        } else {
+            None
+        };
         let (other, side_label): (Term, &str) = match side {
+            0..=2 if veiled.is_some() => (veiled.unwrap(), "the term the pattern was cut from, read through holes that are solved already"),
             6 | 7 if near_side && group.is_none() => (near_full.clone().unwrap(), "a near miss of that term (one point changed, or a group one definition longer / shorter)"),
             0..=2 => (t.clone(), "the term the pattern was cut from"),
             3 => match if group.is_none() { crate::evaluator::step(&t) } else { None } {
@@ -373,7 +418,7 @@ fn pattern_case(ctx: &Ctx, ch: &mut Ch) -> Outcome {
         Err(p) => Err(Failure::new(format!("panic: {p}"), input_base).with_sig("panic")),
         Ok(Err(f)) => Err(f),
         Ok(Ok(classes)) => {
-            let nontrivial = classes.iter().any(|c| c.contains("under a binder with shift >= 1") || c.contains("non-linear") || c.contains("scope escape") || c.contains("near miss"));
+            let nontrivial = classes.iter().any(|c| c.contains("under a binder with shift >= 1") || c.contains("non-linear") || c.contains("scope escape") || c.contains("near miss") || c.contains("solved already"));
             for c in &classes {
                 if c.starts_with("inconclusive") {
                     ctx.inconclusive(c);
